@@ -218,6 +218,8 @@ structure JState where
   mem : List (String × (Nat × Nat)) := []      -- program ↦ (number of the load that put it into memory, clock then)
   links : List (String × List (String × Nat)) := []   -- program ↦ its parents and the load numbers it was linked with
   poisoned : List (String × List (String × Nat)) := [] -- saved binary ↦ parents that were out of date when it was compiled
+  incsearch : List (String × List String) := []  -- program ↦ the candidates of one include directive, in search order
+  resolved : List (String × List (Option String)) := [] -- saved binary ↦ what each of its directives resolved to then
   deriving Inhabited
 
 def JState.flag (s : JState) (v : String) : JState := { s with bad := v :: s.bad }
@@ -257,6 +259,10 @@ def registerLoad (s : JState) (prog : String) : JState :=
   let ls := (declOf s prog).inherits.map (fun p => (p, ((s.mem.lookup p).map (·.1)).getD 0))
   { s with loadCount := g, mem := setKey s.mem prog (g, s.ctime), links := setKey s.links prog ls }
 
+/-- what every declared include directive of `prog` resolves to now: the first candidate that exists -/
+def resolveNow (s : JState) (prog : String) : List (Option String) :=
+  (s.incsearch.filter (·.1 == prog)).map (fun d => d.2.find? (fun c => (s.mt c).isSome))
+
 /-- the property's rule, computed from the history alone -/
 def staleReasons (s : JState) (prog : String) : List String :=
   match s.binT.lookup prog with
@@ -292,6 +298,7 @@ def caseLine (s : JState) (line : String) : JState :=
                         save := kv rest "save" == "1", ssw := (kv rest "ssw").toNat? } :: s.decls.filter (·.name != name) }
   | ["expect", call, res] => { s with expects := (call, res) :: s.expects.filter (·.1 != call) }
   | ["now", t] => { s with ctime := max s.ctime (t.toNat?.getD 0) }
+  | "incsearch" :: prog :: cands => { s with incsearch := s.incsearch ++ [(prog, cands)] }
   | "usort" :: rest => { s with pendingUnit := s.pendingUnit ++ [("usort" :: rest)] }
   | "ureloc" :: rest => { s with pendingUnit := s.pendingUnit ++ [("ureloc" :: rest)] }
   | "upatch" :: rest => { s with pendingUnit := s.pendingUnit ++ [("upatch" :: rest)] }
@@ -458,6 +465,14 @@ def traceLine (s : JState) (unitSeen : Nat) (line : String) : JState × Nat :=
     -- been loaded again since: the layout in the binary is not the one the current sources give
     let s := (((s.poisoned.lookup name).getD []).filter (fun q => ((s.mem.lookup q.1).map (·.1)) != some q.2)).foldl
       (fun s q => s.flag s!"stale-binary-used {name} dep=compiled-against-older-version-of:{q.1}") s
+    -- an include directive that would now find another file (a new file earlier in the search path)
+    let s :=
+      match s.resolved.lookup name with
+      | some was =>
+        ((was.zip (resolveNow s name)).filter (fun (p : Option String × Option String) => p.1 != p.2)).foldl
+          (fun (s : JState) (p : Option String × Option String) =>
+            s.flag s!"stale-binary-used {name} dep=include-shadowed-by:{p.2.getD "?"}") s
+      | none => s
     (registerLoad { s with used := name :: s.used } name, unitSeen)
   | ["lb", name, "stale"] => (registerLoad s name, unitSeen)
   | ["lb", _, "needs", _] => (s, unitSeen)
@@ -467,7 +482,8 @@ def traceLine (s : JState) (unitSeen : Nat) (line : String) : JState × Nat :=
     | some t =>
       let dm := s.damaged.filter (fun x => x != name)
       let fg := s.foreign.filter (fun x => x != name)
-      ({ s with binT := setKey s.binT name t, damaged := dm, foreign := fg, poisoned := setKey s.poisoned name old },
+      ({ s with binT := setKey s.binT name t, damaged := dm, foreign := fg, poisoned := setKey s.poisoned name old,
+                resolved := setKey s.resolved name (resolveNow s name) },
        unitSeen)
     | none =>
       -- not written: right only when the program was compiled against an out-of-date parent
